@@ -1,5 +1,9 @@
 import Cbor.Gen.Loaders
-/-! Big-endian loaders of the generated code, stated over `toNat`. -/
+import Cbor.Lemmas.Tactics
+/-! Big-endian loaders of the generated code, stated over `toNat`.
+The proofs push the generated expression to `Nat`, turn byte-aligned `|||` into `+` (`bits_to_arith`) and finish with
+`omega`, so `(b0 << 8) + b1` and `(b0 << 8) | b1` (or any mixture) are accepted alike. -/
+set_option linter.unusedSimpArgs false
 namespace Lemmas
 open Gen
 theorem load16_toNat (s : Array UInt8) (o : Nat) :
@@ -9,8 +13,7 @@ theorem load16_toNat (s : Array UInt8) (o : Nat) :
   generalize s.getD (o+1) 0 = b1
   have h0 := b0.toNat_lt
   have h1 := b1.toNat_lt
-  simp [C.toU16]
-  omega
+  simp [C.toU16, UInt16.toNat_add, UInt16.toNat_or, UInt16.toNat_shiftLeft, Nat.shiftLeft_eq] <;> bits_to_arith <;> omega
 
 theorem load32_toNat (s : Array UInt8) (o : Nat) :
     (_cbor_load_uint32 s o).toNat = (s.getD o 0).toNat * 16777216 + (s.getD (o+1) 0).toNat * 65536
@@ -24,8 +27,7 @@ theorem load32_toNat (s : Array UInt8) (o : Nat) :
   have h1 := b1.toNat_lt
   have h2 := b2.toNat_lt
   have h3 := b3.toNat_lt
-  simp [C.toU32, UInt32.toNat_add, UInt32.toNat_shiftLeft, Nat.shiftLeft_eq]
-  omega
+  simp [C.toU32, UInt32.toNat_add, UInt32.toNat_or, UInt32.toNat_shiftLeft, Nat.shiftLeft_eq] <;> bits_to_arith <;> omega
 
 theorem load64_toNat (s : Array UInt8) (o : Nat) :
     (_cbor_load_uint64 s o).toNat = (s.getD o 0).toNat * 2^56 + (s.getD (o+1) 0).toNat * 2^48
@@ -48,8 +50,7 @@ theorem load64_toNat (s : Array UInt8) (o : Nat) :
   have h5 := b5.toNat_lt
   have h6 := b6.toNat_lt
   have h7 := b7.toNat_lt
-  simp [C.toU64, UInt64.toNat_add, UInt64.toNat_shiftLeft, Nat.shiftLeft_eq]
-  omega
+  simp [C.toU64, UInt64.toNat_add, UInt64.toNat_or, UInt64.toNat_shiftLeft, UInt32.toNat_shiftLeft, Nat.shiftLeft_eq] <;> bits_to_arith <;> omega
 end Lemmas
 
 namespace Lemmas
@@ -69,22 +70,39 @@ theorem load16_ok (s : Array UInt8) (o : Nat) (h : o + 2 ≤ s.size) : _cbor_loa
   generalize s.getD (o+1) 0 = b1
   have h0 := b0.toNat_lt
   have h1 := b1.toNat_lt
-  simp [C.fitsS]
-  omega
+  simp [C.fitsS] <;> bits_to_arith <;> omega
 
 theorem load32_ok (s : Array UInt8) (o : Nat) (h : o + 4 ≤ s.size) : _cbor_load_uint32.ok s o = true := by
   unfold _cbor_load_uint32.ok
+  generalize s.getD o 0 = b0
+  generalize s.getD (o+1) 0 = b1
   generalize s.getD (o+2) 0 = b2
+  generalize s.getD (o+3) 0 = b3
+  have h0 := b0.toNat_lt
+  have h1 := b1.toNat_lt
   have h2 := b2.toNat_lt
-  simp [C.fitsS]
-  omega
+  have h3 := b3.toNat_lt
+  simp [C.fitsS] <;> bits_to_arith <;> omega
 
 theorem load64_ok (s : Array UInt8) (o : Nat) (h : o + 8 ≤ s.size) : _cbor_load_uint64.ok s o = true := by
   unfold _cbor_load_uint64.ok
+  generalize s.getD o 0 = b0
+  generalize s.getD (o+1) 0 = b1
+  generalize s.getD (o+2) 0 = b2
+  generalize s.getD (o+3) 0 = b3
+  generalize s.getD (o+4) 0 = b4
+  generalize s.getD (o+5) 0 = b5
   generalize s.getD (o+6) 0 = b6
+  generalize s.getD (o+7) 0 = b7
+  have h0 := b0.toNat_lt
+  have h1 := b1.toNat_lt
+  have h2 := b2.toNat_lt
+  have h3 := b3.toNat_lt
+  have h4 := b4.toNat_lt
+  have h5 := b5.toNat_lt
   have h6 := b6.toNat_lt
-  simp [C.fitsS]
-  omega
+  have h7 := b7.toNat_lt
+  simp [C.fitsS] <;> bits_to_arith <;> omega
 
 theorem loadf_ok (s : Array UInt8) (o : Nat) (h : o + 4 ≤ s.size) : _cbor_load_float.ok s o = true := by
   simp [_cbor_load_float.ok, load32_ok s o h]
